@@ -39,6 +39,8 @@ func runC17(c *core.Ctx) {
 	c17Wrappers(c)
 	// the routing layer accepts a name, tag or digest only if the ociref predicate does
 	c06ValidatedFields(c, "C17.R5")
+	routerDoesNotNormalisePaths(c, "C17.R6")
+	noPackageState(c, "C17.R7", "a validity predicate / the request router", append(c.P.ModuleFunctions("ociref"), pkgFuncs(c, "internal/ocirequest")...))
 }
 
 // patternUsedBy: the constant pattern of the regexp on which fn calls method.
